@@ -20,7 +20,7 @@ func VH_C10_dolike() {
 	vrt.Unwind(200)
 	v := vrt.String("value", vrt.Len("len", 0, maxLen))
 	l := &LineFilterPlanner{Op: "|=", Val: v}
-	cond, err := l.doLike("like")
+	cond, err := l.doLike("like", l.Val)
 	vrt.Assert(err == nil, "no-error")
 	out, err := cond.String(sql.DefaultCtx())
 	vrt.Assert(err == nil, "no-render-error")
